@@ -331,7 +331,8 @@ class PeriodicTask:
 
     def __init__(self, bus, msg, period):
         self.bus = bus
-        self.msg = msg
+        # like a real backend the task serialises the frame when it is created (no aliasing of the caller's buffer)
+        self.msg = bus._copy(msg)
         self.period = period
         self.stopped = False
         self.serial = len(bus.tasks)
@@ -348,7 +349,7 @@ class ModifiablePeriodicTask(PeriodicTask):
     def modify_data(self, msg):
         if msg.arbitration_id != self.msg.arbitration_id:
             raise ValueError("arbitration id changed")
-        self.msg = msg
+        self.msg = self.bus._copy(msg)
 
 
 class Port:
@@ -376,13 +377,14 @@ class Port:
 
     def shutdown(self):
         self.is_shutdown = True
-        for t in self.simbus.tasks:
-            if getattr(t, "port", None) is self:
-                t.stop()
+        if self.simbus.shutdown_stops_tasks:
+            for t in self.simbus.tasks:
+                if getattr(t, "port", None) is self:
+                    t.stop()
 
 
 class SimBus:
-    def __init__(self, mode="inline", modifiable_tasks=True, loopback=False):
+    def __init__(self, mode="inline", modifiable_tasks=True, loopback=False, shutdown_stops_tasks=True):
         import can
         self._can = can
         self.mode = mode              # "inline" | "deferred" | "manual"
@@ -395,6 +397,7 @@ class SimBus:
         self.filters = []             # callables (src, msg) -> list of msgs to deliver instead
         self.format_errors = []
         self.loopback = loopback
+        self.shutdown_stops_tasks = shutdown_stops_tasks
         if mode == "deferred":
             W.idle_hooks.append(self.pump)
 
